@@ -18,8 +18,8 @@
    at some position, the nine bytes "<![CDATA[" in ANY letter case, the exact
    upper-case spelling included (s itself may be harmless, but one of its case
    variants is the other spelling).  The exclusion does not depend on which
-   side of the pair is looked at (cv-symmetric) and every suffix of an admitted
-   input is admitted.
+   side of the pair is looked at (cv-symmetric) and every suffix of an allowed
+   input is allowed.
 
    The result is an equality of results of the error monad: no totality fact
    is used; the two runs are related step by step, failures included.
@@ -29,10 +29,35 @@
    types), Proofs/XCiXss.v (entity decoder, URL schemes, tag and attribute
    tables, the loop of isXSS).
 
-   Clause (b) of C11 (NUL bytes inside names) is not covered here. *)
+   C11 (b) -- in any one injection context, inserting a NUL byte inside an
+   element name or attribute name never changes that context's verdict.
+
+   Let s = pre ++ name ++ post and let the scan of context fl over s
+   (h5_tokens s fl: all tokens of repeated h5State.next() calls, a superset of
+   what isXSS consumes before it returns) contain a tag-name-open token (type
+   1) or an attribute-name token (type 6) that covers exactly `name`, i.e.
+   starts at offset |pre| and has length |name|.  Then for every k strictly
+   inside the name (0 < k < |name|) the input with one NUL byte inserted after
+   the first k bytes of the name has the same result in context fl:
+     xss_ctx (pre ++ name[:k] ++ [NUL] ++ name[k:] ++ post) fl = xss_ctx s fl.
+   (Any flag value; outside 0..4 the scan emits nothing.)  No counter-example
+   exists: before the proof the statement was tested by vm_compute on 630
+   hand-picked insertions and, token stream against token stream, on all
+   strings up to length 7 over small structural alphabets in all 5 contexts.
+
+   Proof: Proofs/XCiNulBase.v (scans across an inserted NUL; the tag and
+   attribute tables look names up after removing NULs, and the raw-length test
+   `len < 3` of isBlackTag cannot flip because every table entry, SVT and XSL
+   included, has at least 3 bytes), Proofs/XCiNulMono.v (a step never moves
+   backwards, a name token never starts before the step's position),
+   Proofs/XCiNulH5.v (simulation of the tokenizer: identical before the
+   insertion point, the name token one byte longer, everything behind it moved
+   by one byte), Proofs/XCiNulXss.v (the classifier on shifted tokens, the loop
+   of isXSS).  The totality theorems (XssTotal) are used for the two runs. *)
 From Coq Require Import List ZArith String Bool.
 From Coq.Strings Require Import Byte.
-From LI Require Import Prelude Base Html5 Xss Spec.XCiSpec Proofs.XCiXss.
+From LI Require Import Prelude Base Html5 Xss Spec.XCiSpec Proofs.XCiXss Proofs.XCiNulXss.
+From LIGen Require Import Consts.
 Import ListNotations.
 Local Open Scope Z_scope.
 
@@ -73,7 +98,7 @@ Definition example_pairs : list (bytes * bytes) :=
     (bs "<B>plain TEXT</B>", bs "<b>plain text</b>");
     (bs "<A HREF=HTTP://X/>", bs "<a href=http://x/>") ].
 
-(* mixed-case inputs against their lower-case forms: related, admitted, same verdict *)
+(* mixed-case inputs against their lower-case forms: related, allowed, same verdict *)
 Example C11a_examples_related : Forall (fun p => cv (fst p) (snd p)) example_pairs.
 Proof. repeat constructor. Qed.
 
@@ -85,7 +110,7 @@ Example C11a_examples :
 Proof. vm_compute. repeat split; reflexivity. Qed.
 
 (* the exclusion is needed: these pairs are case variants of each other, are
-   not admitted, and their verdicts differ -- in either direction *)
+   not allowed, and their verdicts differ -- in either direction *)
 Example C11a_exclusion_needed_related :
   cv (bs "<![CDATA[`>") (bs "<![cdata[`>") /\
   cv (bs "<![CDATA[><!--]]><script>-->") (bs "<![cdata[><!--]]><script>-->").
@@ -109,6 +134,49 @@ Proof. vm_compute. split; reflexivity. Qed.
 Example C11a_exclusion_scope :
   map no_cdata_like
     [ bs "<![CDATA[x]]>"; bs "x<![cDaTa[x"; bs "<![CDATA["      (* excluded *)
-    ; bs "[CDATA["; bs "<! [CDATA["; bs "<![CDATA"; bs "<[CDATA["; bs "![CDATA[" ] (* admitted *)
+    ; bs "[CDATA["; bs "<! [CDATA["; bs "<![CDATA"; bs "<[CDATA["; bs "![CDATA[" ] (* allowed *)
   = [false; false; false; true; true; true; true; true].
 Proof. vm_compute. reflexivity. Qed.
+
+(* ---------- clause (b) ---------- *)
+
+Theorem C11b_nul_inside_name :
+  forall s fl pre name post ty toks k,
+    s = pre ++ name ++ post ->
+    h5_tokens s fl = Ok toks -> In (ty, len pre, len name) toks ->
+    ty = c_html5_type_tag_name_open \/ ty = c_html5_type_attr_name ->
+    0 < k < len name ->
+    xss_ctx (pre ++ firstn (Z.to_nat k) name ++ [x00] ++ skipn (Z.to_nat k) name ++ post) fl
+    = xss_ctx s fl.
+Proof. exact nul_in_name. Qed.
+Print Assumptions C11b_nul_inside_name.
+
+(* pre, name, post, context, token type: the name token is in the scan, and the
+   verdict with a NUL after each k-th byte of the name equals the original one *)
+Definition b_case (pre name post : bytes) (fl ty : Z) : bool * list (res bool) * res bool :=
+  let s := pre ++ name ++ post in
+  (match h5_tokens s fl with
+   | Ok toks => existsb (fun tk => let '(a, o, l) := tk in (a =? ty) && (o =? len pre) && (l =? len name)) toks
+   | _ => false
+   end,
+   map (fun k => xss_ctx (pre ++ firstn k name ++ [x00] ++ skipn k name ++ post) fl)
+       (seq 1 (List.length name - 1)),
+   xss_ctx s fl).
+
+Example C11b_examples :
+  (* black tags of length exactly 3 (the raw-length test precedes NUL stripping) *)
+  b_case (bs "<") (bs "svt") (bs ">") 0 1 = (true, [Ok true; Ok true], Ok true) /\
+  b_case (bs "<") (bs "XSL") (bs " x>") 0 1 = (true, [Ok true; Ok true], Ok true) /\
+  b_case (bs "<") (bs "ab") (bs ">") 0 1 = (true, [Ok false], Ok false) /\
+  b_case (bs "<") (bs "script") (bs ">") 0 1 = (true, [Ok true; Ok true; Ok true; Ok true; Ok true], Ok true) /\
+  (* attribute names before '=', in the data context and in the unquoted-value context *)
+  b_case (bs "<a ") (bs "onclick") (bs "=x>") 0 6
+    = (true, [Ok true; Ok true; Ok true; Ok true; Ok true; Ok true], Ok true) /\
+  b_case (bs "x ") (bs "href") (bs "=javascript:x") 1 6 = (true, [Ok true; Ok true; Ok true], Ok true) /\
+  b_case (bs "<a ") (bs "title") (bs "=x>") 0 6 = (true, [Ok false; Ok false; Ok false; Ok false], Ok false) /\
+  (* the SVG attributeName= indirection: NUL in the attribute name *)
+  b_case (bs "<set ") (bs "to") (bs "=x attributeName=onclick>") 0 6 = (true, [Ok true], Ok true) /\
+  b_case (bs "<set x=y ") (bs "attributeName") (bs "=onclick>") 0 6
+    = (true, [Ok true; Ok true; Ok true; Ok true; Ok true; Ok true; Ok true; Ok true; Ok true; Ok true; Ok true; Ok true],
+       Ok true).
+Proof. vm_compute. repeat split; reflexivity. Qed.
